@@ -4,7 +4,8 @@ writer's abort for both live arms (for gzip through get_mut, i.e. without
 finishing the stream); (R2) the chunk writer's abort on a live state stores the
 caller's error, takes and wakes the parked waker; on other states the state stays
 non-live; (R3) is_end_stream is false while the error is pending and true only
-when the consumer finished or (nothing queued and producer finished); (R4) write /
+when the consumer finished or (nothing queued and producer finished), and - on the
+whole entry state - never in a state from which the next poll yields an error; (R4) write /
 flush on a dead writer fail without delegating and an inner error marks the writer
 dead; (R5) the consumer half has a Drop impl whose every path leaves the shared
 state non-live (releasing the queue); (R6) flush returns Ok only after observing a
